@@ -451,7 +451,34 @@ def main(tier, seed, replay):
                 plan.append(('corpus', (x, y, z, dep), c.add('q3', 1, core.hx(x), core.hx(y), core.hx(z), core.hx(dep), core.props_str(PROPS))))
         plan.append(('cartesian-surface-at-z=0', (x0, y0, -1e5, 1e5), c.add('q3', 1, core.hx(0.5 * (x0 + x1)), core.hx(0.5 * (y0 + y1)), core.hx(-1e5), core.hx(1e5), core.props_str(PROPS))))
         jobs.append((c, plan, d['path']))
-    core.run_cases('asan', [j[0] for j in jobs], PID, per_case_timeout=120)
+    # the great-circle kernel underneath every ridge distance, at the pairs whose cosine rounds to just outside [-1,1]: exactly antipodal
+    # points (a plate wider than 180 degrees contains the antipode of its own ridge), identical points, the poles
+    kc = core.Case('gc_kernel', files={'gc_sph.wb': '{"version":"1.1","coordinate system":{"model":"spherical","depth method":"starting point"},"features":[]}'})
+    world(kc, 1, core.workfile(PID, 'gc_sph.wb'))
+    kplan = []
+    krng = random.Random(seed * 31337 + 13)
+    for _ in range(400 if quick else 12000):
+        r = krng.choice([6371000.0, 1.0, krng.uniform(1e5, 7e6)])
+        lon1 = krng.uniform(-math.pi, math.pi)
+        lat1 = krng.choice([krng.uniform(-1.57, 1.57), 0.0, math.pi / 2, -math.pi / 2])
+        if krng.random() < 0.7:
+            lon2, lat2 = (lon1 + math.pi if lon1 <= 0 else lon1 - math.pi), -lat1
+        else:
+            lon2, lat2 = lon1, lat1
+        kplan.append(((r, lon1, lat1, lon2, lat2), kc.add('gcdist', 1, core.hx(r), core.hx(lon1), core.hx(lat1), core.hx(lon2), core.hx(lat2))))
+    core.run_cases('asan', [j[0] for j in jobs] + [kc], PID, per_case_timeout=120)
+    if kc.crash:
+        V.crash(kc, 'great circle kernel')
+    for (arg, idx) in kplan:
+        res = kc.results[idx] if kc.results else ('missing', '')
+        if res[0] != 'ok':
+            continue
+        V.count()
+        v = core.fh(res[1].split(' ')[0])
+        if v != v or abs(v) == float('inf'):
+            V.violation('non-finite-value:nan:great-circle-distance-of-antipodal-or-identical-points', {'arguments (r, lon1, lat1, lon2, lat2)': arg, 'value': res[1]})
+        else:
+            V.nontrivial(('gc', arg))
     labels = {}
     for (c, plan, fn) in jobs:
         if c.crash:
